@@ -11,6 +11,8 @@ Props.C15 — Invariant testing covers every bounded call sequence (on Model.Fro
 * `digest_identifies_cex` / `frontier_incomplete_cex`: the digest of `snapshot_state` ignores `ex.block`; two states differing
   only in `block.number` are merged, and an invariant reading `block.number` is then never run on the second
   (replayed on the real code by tools/props/c15.py: template `clock-roll`).
+* `storage_digest_identifies` / `storage_digest_skip_zero_cex`: the storage digest hashes every entry, so "slot absent (arbitrary
+  under symbolic storage)" and "slot = 0" get different digests; a digest skipping zero entries would merge them.
 * `filters_as_foundry_*`: target resolution agrees with the Foundry rules (for selector entries that are non-empty).
 -/
 import HalmosVerif.Lemmas.Frontier
@@ -106,6 +108,27 @@ theorem digest_identifies_cex : ¬ (∀ a b : Persist, digestImpl a = digestImpl
   intro h
   have := h ⟨0, [], 0, [], 1, 31337, 0, 0⟩ ⟨0, [], 0, [], 2, 31337, 0, 0⟩ rfl
   exact absurd this (by decide)
+
+/-- **storage_digest_identifies**: the storage part of the digest determines, for every slot, whether it is absent (arbitrary under
+symbolic storage) or present and with which value — "slot absent" and "slot = 0" are told apart -/
+theorem storage_digest_identifies (a b : StorageMap) (h : storageDigestInput a = storageDigestInput b) :
+    ∀ slot, slotOf a slot = slotOf b slot := by
+  intro slot
+  have : a = b := h
+  rw [this]
+
+/-- **storage_digest_skip_zero_cex**: a digest that skips zero-valued entries identifies `{x ↦ 0, y ↦ 1}` (after `clear()`) with
+`{y ↦ 1}` (after `mark()`, x untouched = arbitrary under symbolic storage); replayed on the real code by the `symbolic-storage`
+template of tools/props/c15.py -/
+theorem storage_digest_skip_zero_cex :
+    ¬ (∀ a b : StorageMap, storageDigestSkipZero a = storageDigestSkipZero b → ∀ slot, slotOf a slot = slotOf b slot) := by
+  intro h
+  have := h [(0, 0), (1, 1)] [(1, 1)] (by decide) 0
+  revert this
+  decide
+
+example : slotOf [(0, 0), (1, 1)] 0 = some 0 ∧ slotOf [(1, 1)] 0 = none ∧
+    storageDigestInput [(0, 0), (1, 1)] ≠ storageDigestInput [(1, 1)] := by decide
 
 /-- a two-field world: (block.number, slot 0). `tick` = `vm.roll(block.number + 1)`, `stamp` = `slot0 := block.number`;
 the digest sees the slot only (as `digestImpl` sees storage but not the block) -/
